@@ -250,7 +250,7 @@ def c10(tier, seed):
                 thin("C10", tier, "thin_walks_q", THIN_OPS, 6, 4, 2, 3, simulate=(1000, 40, seed)),
                 lay("C10", tier, "layout_matrix_q"), inj("C10", tier),
             # "every ThinArc obtainable through the safe API": also from iterators that misreport or change their length
-            stage(CT.ctor_stage, "C10", tier, "ctor_thin_" + tier[0], ["thin"], True,
+            stage(CT.ctor_stage, "C10", tier, "ctor_thin_" + tier[0], ["thin", "zst"], True,
                   only_cats=["thin", "contents", "overrun", "layout", "baddrop", "crash", "count"])] + swaps("C10", tier, seed, hows=("thin",))
     return [thin("C10", tier, "thin_t", THIN_OPS, 4, 2, 2, 2), thin_lengths("C10", tier),
             thin("C10", tier, "thin_nostd_t", THIN_OPS, 3, 2, 2, 2, harness_cfg="b"), thin("C10", tier, "thin_debug_t", THIN_OPS, 3, 2, 2, 2, harness_cfg="d"),
